@@ -200,6 +200,7 @@ func (s *c15SrHandle) AssignSplits(ctx context.Context, sp []*workerpb.SourceSpl
 	s.w.assigned = append(s.w.assigned, s.id)
 	cl := s.w.cluster
 	s.w.mu.Unlock()
+	s.w.parkIfHung('s', s.id)
 	if cl != nil {
 		return cl.assignSplits(s.id)
 	}
@@ -255,6 +256,13 @@ func (o *c15OpHandle) UpdateRetainedCheckpoints(ctx context.Context, ids []uint6
 	case o.w.retainCh <- struct{}{}:
 	default:
 	}
+	o.w.mu.Lock()
+	h := o.w.hung[[2]int{'o', o.id}]
+	o.w.mu.Unlock()
+	if h {
+		o.w.retainBlocked.Store(true)
+	}
+	o.w.parkIfHung('o', o.id)
 	return nil
 }
 
@@ -373,6 +381,12 @@ type c15World struct {
 	retainText    string // retained-ids notifications observed during the current op
 	pendingRetain []uint64
 	opSrcs        map[int][]int // the source runners each operator was last deployed with
+	// unresponsive members (`hang o|s <id>`): their AssignSplits / UpdateRetainedCheckpoints handlers never answer
+	hung          map[[2]int]bool
+	parkedCalls   atomic.Int32
+	hangRelease   chan struct{}
+	retainBlocked atomic.Bool // the job's retained-ids goroutine is waiting for such an operator
+	stuckSeen     bool        // the job's task queue did not come back while a call was parked at such a member
 	pubSeen       map[uint64]bool
 }
 
@@ -478,7 +492,7 @@ func newC15World(w, d, c0, bmax int) (*c15World, error) {
 		}
 	}
 	world := &c15World{w: w, d: d, bmax: bmax, timers: map[int]*c15Timer{}, handled: map[int][]int{}, queued: map[int][]int{},
-		handledCh: make(chan struct{}, 1), retainCh: make(chan struct{}, 64), ops: map[int]*operator.Operator{}, deployed: map[int]bool{},
+		handledCh: make(chan struct{}, 1), retainCh: make(chan struct{}, 64), hung: map[[2]int]bool{}, hangRelease: make(chan struct{}), ops: map[int]*operator.Operator{}, deployed: map[int]bool{},
 		deployCh: make(chan *c15DeployCall, 64), startCh: make(chan string, 4),
 		clk: &c15Clock{now: time.Unix(1000, 0), everyCh: make(chan struct{}, 4)}}
 	quiet := slog.New(slog.NewTextHandler(c15Discard{}, nil))
@@ -559,6 +573,13 @@ func c15JoinOrdered(ids []string) string {
 }
 
 func (w *c15World) sync() bool {
+	if w.stuckSeen {
+		return true // the queue is stuck for good: nothing runs any more, the state can be read
+	}
+	bound := c15W()
+	if w.parkedCalls.Load() > 0 {
+		bound = time.Second
+	}
 	done := make(chan struct{})
 	go func() {
 		defer func() { recover() }()
@@ -568,7 +589,7 @@ func (w *c15World) sync() bool {
 	select {
 	case <-done:
 		return true
-	case <-time.After(c15W()):
+	case <-time.After(bound):
 		return false
 	}
 }
@@ -645,7 +666,7 @@ func (w *c15World) collectBatch() string {
 // status line after a task; picks up the deployment of a newly spawned start goroutine
 func (w *c15World) settle() string {
 	if !w.sync() {
-		return "timeout-sync"
+		return w.stuckWord()
 	}
 	st := w.job.VerifStatusC15()
 	if st == "Starting" && w.batch == nil {
@@ -678,6 +699,54 @@ func (w *c15World) release(victim int) {
 		}
 	}
 	w.batch = nil
+}
+
+// parkIfHung: the member does not answer this RPC (until the case ends)
+func (w *c15World) parkIfHung(kind byte, id int) {
+	w.mu.Lock()
+	h := w.hung[[2]int{int(kind), id}]
+	w.mu.Unlock()
+	if !h {
+		return
+	}
+	w.parkedCalls.Add(1)
+	select {
+	case <-w.hangRelease:
+	case <-time.After(10 * c15W()):
+	}
+}
+
+// stuckWord: the queue did not come back. With a call parked at an unresponsive member that is the observation
+// QUEUE-STUCK (and the queue is taken as stuck for the rest of the case); otherwise an expired wait.
+func (w *c15World) stuckWord() string {
+	if w.parkedCalls.Load() > 0 {
+		w.stuckSeen = true
+		return "QUEUE-STUCK"
+	}
+	return "timeout-sync"
+}
+
+// post hands a membership call to the job; the call blocks while the queue is stuck
+func (w *c15World) post(f func()) string {
+	if w.stuckSeen {
+		return "QUEUE-STUCK"
+	}
+	done := make(chan struct{})
+	go func() {
+		defer close(done)
+		defer func() { recover() }()
+		f()
+	}()
+	bound := c15W()
+	if w.parkedCalls.Load() > 0 {
+		bound = time.Second
+	}
+	select {
+	case <-done:
+		return w.settle()
+	case <-time.After(bound):
+		return w.stuckWord()
+	}
 }
 
 func (w *c15World) noteSrcs(op int, ids []string) {
@@ -737,11 +806,11 @@ func (w *c15World) deployOK() string {
 	deadline := time.Now().Add(c15W())
 	for {
 		if !w.sync() {
-			return "timeout-sync"
+			return w.stuckWord()
 		}
 		if w.job.VerifStatusC15() != "Starting" {
 			if !w.sync() { // a status read in the middle of that task is not final
-				return "timeout-sync"
+				return w.stuckWord()
 			}
 			break
 		}
@@ -861,6 +930,12 @@ type c15Retain struct {
 // awaitRetain: the publication of `id` made an older snapshot obsolete; the job tells every operator of its assembly
 // to retain only `id`
 func (w *c15World) awaitRetain(id uint64) {
+	w.mu.Lock()
+	seen := len(w.retained)
+	w.mu.Unlock()
+	if w.retainBlocked.Load() && seen == 0 {
+		return // the job's retained-ids goroutine is waiting for an operator that does not answer: nothing more is sent
+	}
 	ao, _ := w.job.VerifAssemblyC15()
 	deadline := time.After(c15W())
 	for {
@@ -1454,17 +1529,13 @@ func c15Impl(c lib.Case) []string {
 		case clusterDone:
 		case len(a) == 3 && a[0] == "reg" && a[1] == "o":
 			w.op(atoi(a[2]))
-			w.job.HandleRegisterOperator(&jobpb.NodeIdentity{Id: c15ID(atoi(a[2])), Host: "h"})
-			o = w.settle()
+			o = w.post(func() { w.job.HandleRegisterOperator(&jobpb.NodeIdentity{Id: c15ID(atoi(a[2])), Host: "h"}) })
 		case len(a) == 3 && a[0] == "reg" && a[1] == "s":
-			w.job.HandleRegisterSourceRunner(&jobpb.NodeIdentity{Id: c15ID(atoi(a[2])), Host: "h"})
-			o = w.settle()
+			o = w.post(func() { w.job.HandleRegisterSourceRunner(&jobpb.NodeIdentity{Id: c15ID(atoi(a[2])), Host: "h"}) })
 		case len(a) == 3 && a[0] == "dereg" && a[1] == "o":
-			w.job.HandleDeregisterOperator(&jobpb.NodeIdentity{Id: c15ID(atoi(a[2])), Host: "h"})
-			o = w.settle()
+			o = w.post(func() { w.job.HandleDeregisterOperator(&jobpb.NodeIdentity{Id: c15ID(atoi(a[2])), Host: "h"}) })
 		case len(a) == 3 && a[0] == "dereg" && a[1] == "s":
-			w.job.HandleDeregisterSourceRunner(&jobpb.NodeIdentity{Id: c15ID(atoi(a[2])), Host: "h"})
-			o = w.settle()
+			o = w.post(func() { w.job.HandleDeregisterSourceRunner(&jobpb.NodeIdentity{Id: c15ID(atoi(a[2])), Host: "h"}) })
 		case len(a) == 2 && a[0] == "adv":
 			w.clk.mu.Lock()
 			w.clk.now = w.clk.now.Add(time.Duration(atoi(a[1])) * time.Second)
@@ -1474,6 +1545,11 @@ func c15Impl(c lib.Case) []string {
 			o = w.deployOK()
 		case len(a) == 2 && a[0] == "deployfail":
 			o = w.deployFail(atoi(a[1]))
+		case len(a) == 3 && a[0] == "hang" && (a[1] == "o" || a[1] == "s"):
+			w.mu.Lock()
+			w.hung[[2]int{int(a[1][0]), atoi(a[2])}] = true
+			w.mu.Unlock()
+			o = "ok"
 		case len(a) == 1 && a[0] == "holdpub":
 			w.loc.hold.Store(true)
 			o = "ok"
@@ -1537,10 +1613,12 @@ func c15Impl(c lib.Case) []string {
 				o = fmt.Sprintf("purged=%v age=deadline%+dns deadline=%ds", purged, delta, d)
 			}
 		case len(a) == 1 && a[0] == "st":
-			if w.sync() {
-				o = w.state()
+			if !w.sync() {
+				o = w.stuckWord()
+			} else if w.stuckSeen {
+				o = "QUEUE-STUCK"
 			} else {
-				o = "timeout-sync"
+				o = w.state()
 			}
 		default:
 			o = "bad-op"
@@ -1564,6 +1642,7 @@ func c15Impl(c lib.Case) []string {
 			break
 		}
 	}
+	close(w.hangRelease)
 	w.loc.hold.Store(false)
 	w.loc.pmu.Lock()
 	for _, ch := range w.loc.parked {
@@ -1617,6 +1696,7 @@ type c15Gen struct {
 	deploys int
 	tag     int
 	held    bool
+	hung    bool
 	stale   []string // unsent messages of the checkpoint that was in flight when the last fault struck
 }
 
@@ -1930,6 +2010,16 @@ func c15Gen1(r *lib.Rng, tier string, idx int) lib.Case {
 				g.noise()
 			}
 		case "Running":
+			if !g.hung && r.Chance(1, 30) && len(g.asmO) > 0 {
+				// a member stops answering RPCs (it may keep heartbeating or not: what follows decides)
+				g.hung = true
+				if r.Chance(2, 3) {
+					g.add("hang o %d", lib.Pick(r, g.asmO))
+				} else {
+					g.add("hang s %d", lib.Pick(r, g.asmS))
+				}
+				continue
+			}
 			if r.Chance(1, 25) {
 				g.add("savepoint")
 				if !g.pending {
@@ -2053,6 +2143,15 @@ func c15Fixed() []lib.Case {
 		{Header: c15Header(1, 5, 0), Tags: []string{"D57"}, Ops: []string{
 			"reg o 0", "reg s 1", "deployok", "ticka", "tickb", "tickc", "ack s 1 1", "bar 0 1 1", "ticka", "dereg s 1", "tickb", "tickc",
 			"st", "ticka", "reg s 2", "deployok", "ticka", "tickb", "tickb", "tickc", "tickc", "st"}},
+		// D71 (open finding): runner 1 stops answering right after its Deploy; the AssignSplits task never returns, the
+		// queue is stuck: the deregistration and the heartbeat expiry are never processed
+		{Header: c15Header(1, 5, 0), Tags: []string{"D71"}, Ops: []string{
+			"reg o 0", "reg s 1", "hang s 1", "deployok", "dereg s 1", "adv 6", "reg o 0", "deployok", "tick", "savepoint", "st"}},
+		// an operator that stops answering UpdateRetainedCheckpoints blocks only the retained-ids goroutine: the job still
+		// pauses, redeploys and checkpoints; no further retained lists go out (seeded C15-7 puts that call on the queue)
+		{Header: c15Header(1, 5, 4), Tags: []string{"unresponsive"}, Ops: []string{
+			"reg o 0", "reg s 1", "deployok", "hang o 0", "tick", "ack s 1 5", "bar 0 1 5", "dereg s 1", "adv 6", "reg o 0", "reg s 2",
+			"deployok", "tick", "ack s 2 6", "bar 0 2 6", "st"}},
 		// savepoint requests (they run off the task queue like the ticker callback): as one step, joined to a pending
 		// checkpoint, refused when not running or already requested; in pieces with a member replaced in between (D57)
 		{Header: c15Header(1, 5, 0), Tags: []string{"savepoint"}, Ops: []string{
